@@ -50,6 +50,18 @@ class Driver:
         self.markers = []       # observation windows
         self.viol = []          # (key, text)
         self.flight = {}        # transfer index -> worst (nRQ, nTR) seen, untracked seen
+        # really shared files, so that uploads are created the way a peer creates them (PeerTransferQueue)
+        import os
+        sm = tw.w.client.shares
+        d = os.path.join(str(tw.w.tmp), 'shared')
+        os.makedirs(d)
+        for i in range(6):
+            with open(os.path.join(d, f's{i}.bin'), 'wb') as f:
+                f.write(b'0123456789')
+        sd = sm.add_shared_directory(d)
+        tw.w.run(sm.scan_directory_files(sd))
+        self.shared = sorted(it.get_remote_path() for it in sd.items)
+        tw.settle(100)
         self._wrap()
 
     # ---- recorders ---------------------------------------------------------------------------
@@ -115,6 +127,17 @@ class Driver:
             drv.log.append(('cycle', None, None))
             return orig_mt()
         tm.manage_transfers = mt
+
+        orig_add = tm.add
+
+        async def add(transfer):
+            r = await orig_add(transfer)
+            if r is transfer and transfer not in drv.ts:
+                drv.hook_transfer(r)
+                drv.ts.append(r)
+                drv.cursor[len(drv.ts) - 1] = len(drv.log)
+            return r
+        tm.add = add
 
     def hook_transfer(self, t):
         drv = self
@@ -222,27 +245,21 @@ class Driver:
             for m in self.markers:      # later connections to this peer may belong to the new transfer
                 if self.ts[m['k']].username == u:
                     m['alone'] = False
-            path = f'd{len(self.ts)}'
             if kind == 'D':
                 from aioslsk.transfer.model import Transfer, TransferDirection
-                t = Transfer(u, path, TransferDirection.DOWNLOAD)
+                t = Transfer(u, f'd{len(self.ts)}', TransferDirection.DOWNLOAD)
                 t = tw.w.run(tw.tm.add(t))
-                self.hook_transfer(t)
-                self.ts.append(t)
-                self.cursor[len(self.ts) - 1] = len(self.log)
+                self.cursor[self.ts.index(t)] = len(self.log)      # cycles that saw it VIRGIN do not count
                 tw.w.run(t.state.queue())
             else:
-                from aioslsk.transfer.model import Transfer, TransferDirection
+                # the peer connects, asks for a shared file (PeerTransferQueue) and disconnects
                 if any(x.username == u and x.is_upload() for x in self.ts):
                     return
-                t = Transfer(u, path, TransferDirection.UPLOAD)
-                t.filesize = 10
-                t.local_path = tw.tmpfile
-                t = tw.w.run(tw.tm.add(t))
-                self.hook_transfer(t)
-                self.ts.append(t)
-                self.cursor[len(self.ts) - 1] = len(self.log)
-                tw.w.run(t.state.queue())
+                from aioslsk.protocol.messages import PeerTransferQueue
+                ep = tw.incoming_peer(u)
+                tw.settle(30)
+                ep.feed(PeerTransferQueue.Request(self.shared[len(self.ts) % len(self.shared)]).serialize())
+                ep.feed_eof()
             tw.settle(60)
         elif kind == 'T':
             tw.w.loop.run_for(op[1])
@@ -279,6 +296,9 @@ class Driver:
                 from aioslsk.protocol.messages import PeerTransferRequest
                 t = self.ts[k]
                 ep = tw.peer_ep(t.username)
+                if ep is None:          # the peer connects to us (our own attempt may still be pending)
+                    ep = tw.incoming_peer(t.username)
+                    tw.settle(30)
                 if ep is not None and not ep.remote_closed:
                     self.ticket = getattr(self, 'ticket', 9000) + 1
                     self.ptickets = getattr(self, 'ptickets', {})
@@ -301,6 +321,19 @@ class Driver:
                 self._fend(k, how)
         elif kind == 'FEnd':
             self._fend(op[1], op[2])
+        elif kind == 'Blk':      # the user blocks / unblocks uploads to peer u (the user manager notices within 1 s)
+            u = f'u{op[1]}'
+            ups = [x for x in self.ts if x.is_upload() and x.username == u and x in tw.tm.transfers]
+            # only while every upload to that peer is finished or aborted BY THE USER: then nothing may happen
+            if all(x.state.VALUE.name in ('COMPLETE', 'FAILED') or
+                   (x.state.VALUE.name == 'ABORTED' and x.abort_reason == 'Requested') for x in ups):
+                from aioslsk.user.model import BlockingFlag
+                if op[2]:
+                    tw.w.settings.users.blocked[u] = BlockingFlag.UPLOADS
+                else:
+                    tw.w.settings.users.blocked.pop(u, None)
+                tw.w.loop.run_for(1.2)
+                tw.settle(100)
         elif kind == 'Drop':     # the peer closes its message connections
             for u, ep in tw.eps:
                 if u == f'u{op[1]}' and not ep.remote_closed:
@@ -322,6 +355,9 @@ class Driver:
                     ok, exc = tw.call(tw.tm.queue(t))
                     if ok:
                         ue[k] = ['Requeue']
+                        for m in self.markers:      # connections to this peer now legitimately belong to the re-queued transfer
+                            if self.ts[m['k']].username == t.username:
+                                m['alone'] = False
                     tw.settle(60)
             else:
                 stoppable = t.state.VALUE.name in ('QUEUED', 'INITIALIZING', 'UPLOADING', 'DOWNLOADING', 'INCOMPLETE')
@@ -469,7 +505,10 @@ def gen_peer_ops(rng):
     """Peer-initiated negotiation: the download is remotely queued, the peer offers the file, the file
     connection ends one way or another; stops / cycles / connection loss at random points."""
     u = rng.randrange(0, 2)
-    ops = [['D', u], ['T', 0.3]]
+    if rng.random() < 0.35:     # our own remote-queue attempt is still pending when the peer offers the file
+        ops = [rng.choice([['Mode', u, 'slow'], ['Addr', u, 'hold'], ['Mode', u, 'hang']]), ['D', u], ['T', 0.3]]
+    else:
+        ops = [['D', u], ['T', 0.3]]
     extra = lambda: rng.choice([['T', rng.choice([0.0, 0.06, 0.3, 1.0])], ['Poke'], [rng.choice(['A', 'P', 'X']), 0], ['RQ', 0],
                                 ['Drop', u], ['Mode', u, rng.choice(['slow', 'hang', 'ok', 'refuse'])], ['Addr', u, 'hold'],
                                 ['PReq', 0], ['Rel', u, rng.random() < 0.5]])
@@ -492,9 +531,25 @@ def gen_peer_ops(rng):
     return ops
 
 
+def gen_block_ops(rng):
+    """An upload the user aborted must stay aborted whatever happens to the block list."""
+    u = rng.randrange(0, 2)
+    ops = [['U', u], ['T', rng.choice([0.0, 0.3])]]
+    if rng.random() < 0.3:
+        ops.append(['Reply', 0])
+    ops.append(['A', 0])
+    for _ in range(rng.randrange(1, 4)):
+        ops.append(rng.choice([['Blk', u, True], ['Blk', u, False], ['T', 0.3], ['Poke']]))
+    ops += [['Blk', u, True], ['Blk', u, False], ['T', 0.3]]
+    return ops
+
+
 def gen_ops(rng):
-    if rng.random() < 0.25:
+    r0 = rng.random()
+    if r0 < 0.25:
         return gen_peer_ops(rng)
+    if r0 < 0.33:
+        return gen_block_ops(rng)
     ops = []
     nt = 0
     style = rng.choice(['dl', 'dl', 'ul', 'mix'])
